@@ -172,20 +172,22 @@ CONFIG = {
     "timeout_thorough": 3000,
     "assumptions": [
         "kernel file-system semantics are modelled, not verified: rename(2) is atomic, a completed system call's effect survives the death of the process (page cache), a process killed at the entry of a system call has not executed it; power loss / fsync is outside the property",
-        "store configuration: AutoSaveIndex = true (default) and AutoGC = false (plain Delete); GC and Delete-with-AutoGC are not scripted or modelled here (defects F1-F4 belong to C08/C09)",
+        "store configuration: AutoSaveIndex = true (default); AutoGC on or off. Delete with AutoGC and GC are modelled as one call that performs a LIST of primitive operations in a row (plain deletes; Forget = drop digest references outside the live set + saveIndex): which nodes a cascade or a sweep visits, and in which order, is C09's subject -- the theorem C10_crash_safe_composite holds for every list, and the harness reads the list off the recorded run (unlink order); Go's map order makes some cascades nondeterministic: a kill run whose order differs from the recorded one is judged by the oracle only (counted cascade-order-differs-unjudged)",
+        "ground truth of scripts with GC / AutoGC: the blob set and tag map before and after the interrupted call are observed on disk (killed before its first system call / completed run) instead of simulated; plain scripts keep the generator's simulator",
         "digest-and-size verification (content.NewVerifyReader, SHA-256) is the Section variable H: a content c matches the name d iff H c = d; no property of H is assumed",
         "encoding/json of index.json / oci-layout is abstracted: a file holds the marshalled entry list as one write unit and parses back to it; Go's map iteration order in saveIndex is the Section variable shuffle with hypothesis In e (shuffle c l) <-> In e l",
         "one descriptor per digest (the generator's universe); references are never digest strings; manifests are well-formed JSON (graph.Index succeeds)",
         "write(2) is modelled as all-or-nothing at system-call granularity (the process is killed at system-call entries); C10_no_in_place_write shows that only temporaries are ever written, so torn writes cannot reach a file a reader looks at",
         "oci.New on an existing layout is modelled as: no change on disk, tag resolver := loadIndex(index.json) (Model reopen/load); graph.IndexAll during loading is not modelled (it only reads)",
         "crash points = entries of the file-system system calls (strace trace set in harness/crashkit10/trace.go) of the thread running the operation; other system calls (futex, mmap, signals) do not change the directory",
-        "oci.New itself (creation of oci-layout / the first index.json) is outside the property (it speaks of an initialised store); oci-layout is still written in place by ensureOCILayoutFile",
+        "initialisation: the property speaks of an initialised store; taken into scope as 'initialisation is restartable' for ONE crash during the first oci.New on an empty directory (C10_init_restartable, kill at every system call); repeated crashes during initialisation are not modelled. oci.New on an existing layout is kill-tested at every system call (operation 'reopen'): it only reads",
+        "blob names are pairs (algorithm, digest) encoded as 1000*algorithm + n (0 = sha256, 1 = sha512); sha384 is not generated",
     ],
     "trusted_extra": [
         "strace 6.1 fault injection (-e inject=<syscall>:signal=KILL:when=<n>) and its trace output; the child runs with GOMAXPROCS=1 and the main goroutine locked to the first thread; the actual kill point is re-read from the trace of the killed run",
     ],
-    "level_text": "Coq theorem over every history of completed Push/Tag/Untag/Delete/SaveIndex operations, every interrupted operation and every cut of its file-system micro-step list (invariant proof, any verification function, any map iteration order): layout valid, every blob file complete and matching its name, index.json parses and names only existing blobs, index.json / tag mapping is the one before or the one after, no completed effect lost; the same after any number of earlier crashes each followed by oci.New on what was left (tag resolver reloaded from index.json, leftover temporaries in place); completed histories refine the sequential specification of the API; no file a reader looks at is ever written in place (write granularity irrelevant); the pre-repair in-place index write and the swapped Delete order are refuted by witnesses. The two orders the proof depends on (temp+rename index write, index before unlink) are re-read from the Go source on every run (translator kind callseq) and configure the model. The model is tied to the code by killing a real child process at every system call of the interrupted operation (strace inject) and comparing the directory with the model after the same number of micro-steps, by comparing the recorded system-call script with the model's micro-step list, and by an independent oracle (oci.New + raw readers + generator ground truth)",
-    "level_note": "full for AutoSaveIndex=true, AutoGC=false and the operations Push/Tag/Untag/Delete/SaveIndex; GC and Delete-with-AutoGC not covered (owned by C08/C09); kernel semantics (atomic rename, no loss at process death) modelled, not verified; JSON encoding and SHA-256 abstracted",
+    "level_text": "Coq theorem over every history of completed Push/Tag/Untag/Delete/SaveIndex operations, every interrupted operation and every cut of its file-system micro-step list (invariant proof, any verification function, any map iteration order): layout valid, every blob file complete and matching its name, index.json parses and names only existing blobs, index.json / tag mapping is the one before or the one after, no completed effect lost; the same after any number of earlier crashes each followed by oci.New on what was left (tag resolver reloaded from index.json, leftover temporaries in place); completed histories refine the sequential specification of the API; no file a reader looks at is ever written in place (write granularity irrelevant); the pre-repair in-place index write and the swapped Delete order are refuted by witnesses. Delete with AutoGC and GC: every cut of a call made of any list of primitives is a crash state of one primitive between two quiescent states of the call (C10_crash_safe_composite), after any earlier crashes; a crash during the first oci.New is repaired by the next one (C10_init_restartable). The orders the proofs depend on (temp+rename writes of index.json and oci-layout, index before unlink, GC: save before sweep) are re-read from the Go source on every run (translator kind callseq) and configure the model; the thorough tier re-evaluates a sample of kill cases inside Coq with vm_compute. The model is tied to the code by killing a real child process at every system call of the interrupted operation (strace inject) and comparing the directory with the model after the same number of micro-steps, by comparing the recorded system-call script with the model's micro-step list, and by an independent oracle (oci.New + raw readers + generator ground truth)",
+    "level_note": "full for AutoSaveIndex=true and the operations Push/Tag/Untag/Delete/SaveIndex; Delete-with-AutoGC and GC covered at the level 'any list of primitives' (what the cascade/sweep visits is read off the run; exactness is C09); kernel semantics (atomic rename, no loss at process death) modelled, not verified; JSON encoding and SHA-256 abstracted",
     "technique": "machine-checked proof in Coq (invariant over file-system micro-steps, every cut of every operation after every history) + model/implementation correspondence by real SIGKILL at every system-call boundary (strace) + independent oracle",
     "explanation": "theorems over all histories/operations/cuts about the micro-step model of content/oci (Store.Push/Tag/Untag/Delete/SaveIndex, Storage.Push/ingest/Delete, writeIndexFile); each run records the system calls of scripted operations on a real oci.Store in a child process, kills the child before every system call of the final operation, and compares directory, script and results with the extracted model; the oracle reopens the killed directory with oci.New and checks blobs, index entries, tag mapping (before/after) and completed effects against the generator's ground truth",
 }
